@@ -154,6 +154,12 @@ func C01Configs(thorough bool) []*world.Config {
 	nv.RegisteredTypes = true
 	add(nv)
 	add(depth(world.IntCfg(2, []int{1, 2, 3, 4, 8}, []interface{}{world.SVal{Asdf: "a", Q: true}, world.SVal{Asdf: "b"}}, world.SVal{}, M, "big"), 6))
+	// pointer-typed values (a caller never holds the very pointer that is stored, least of all after a
+	// reload) and values whose static type is comparable while their content is not
+	add(world.IntCfg(2, []int{1, 2, 3, 4, 8}, []interface{}{&world.SVal{Asdf: "a", Q: true}, &world.SVal{Asdf: "b"}}, &world.SVal{}, B, "none"))
+	add(world.IntCfg(4, []int{1, 2, 3, 4, 8}, []interface{}{&world.TVal{Tags: []string{"x"}}, &world.TVal{Tags: []string{"y", "z"}}}, &world.TVal{}, M, "none"))
+	add(world.IntCfg(2, []int{1, 2, 3, 4}, []interface{}{world.IVal{Name: "a", Extra: []interface{}{"x"}}, world.IVal{Name: "a", Extra: map[string]interface{}{"k": "v"}}}, world.IVal{}, M, "none"))
+	add(world.IntCfg(2, []int{1, 2, 3, 4}, []interface{}{world.IVal{Name: "a", Extra: []interface{}{"x"}}, world.IVal{Name: "b", Extra: "s"}}, world.IVal{}, B, "none"))
 	add(world.Int64Cfg(2, []int64{-8, -3, 0, 2, 4, 1 << 40}, B, "none"))
 	add(world.Uint64Cfg(2, []uint64{0, 1, 2, 4, 1<<53 + 1, 1 << 63}, B, "none"))
 	add(world.Wide(world.UintCfg(2, u(1, 5), 1, B, "none")))
@@ -169,6 +175,10 @@ func C01Configs(thorough bool) []*world.Config {
 	im.InMemory = true
 	im.Name = "inmemory/" + im.Name
 	add(im)
+	im2 := world.IntCfg(16, []int{1, 2, 3, 16, 32}, []interface{}{world.IVal{Name: "a", Extra: []int{1}}, &world.SVal{Asdf: "p"}}, nil, B, "none")
+	im2.InMemory = true
+	im2.Name = "inmemory/mixed-values/" + im2.Name
+	add(im2)
 	if thorough {
 		add(world.UintCfg(2, u(1, 7), 2, B, "none"))
 		add(world.UintCfg(2, u(0, 8), 2, B, "none"))
